@@ -541,3 +541,61 @@ def r8(cx):
                      "dropped as noise, and every guard keeps handing writes to an overloaded node" % b.sp(skipping[0]), [b.sp(skipping[0])])
     else:
         cx.passed(fk, "reported-load-is-recorded", [b.sp(stores[0][0], stores[0][1])])
+
+
+@rule("C19", "R9", "one lock order on the routing structures: over all methods of an object, 'a guard of lock A is live while lock B is acquired (directly or through a method of the same "
+      "object)' never holds in both directions with a write involved on each lock - two tasks taking the locks in opposite orders (a route and a rebalance) wait for each other "
+      "for ever")
+def r9(cx):
+    memo = {}
+    fns = [k for k in cx.prog.fn_keys(r"^cluster::(shard_assignment|node_registry|write_router|query_router)::[A-Za-z]+::[a-z_0-9]+$")]
+    edges = {}   # (type prefix, A, B) -> [(fn, mode held, mode acquired, span)]
+    for fk in fns:
+        pre = _self_type_prefix(fk)
+        for k in cx.prog.sub_bodies(fk):
+            b = cx.body(k)
+            if b is None:
+                continue
+            guards = {}
+            for g, ty in M.guard_locals(b).items():
+                if re.search(r"tokio::sync::(RwLock(Read|Write)Guard|MutexGuard)|std::sync::(RwLock(Read|Write)Guard|MutexGuard)", ty):
+                    fs = {f[1].split("@")[0] for f in M.guard_source(b, g) if str(f[0]) in ("self", "1")}
+                    if fs:
+                        guards[g] = (fs, "read" if "ReadGuard" in ty else "write")
+            if not guards:
+                continue
+            acqs = []   # (block, field, mode, span)
+            for bi, t in b.calls():
+                m = LOCK_ACQ.match(t["callee"])
+                if m and t["args"]:
+                    for x in M.operand_origins(b, t["args"][0], at=(bi, M.T)):
+                        if x[0] in ("upvar", "arg") and str(x[1]) in ("self", "1") and x[2].startswith("."):
+                            acqs.append((bi, x[2].split("@")[0], "write" if m.group(3) in ("write", "lock") else "read", b.sp(bi)))
+            for (kk, bi, c) in [s for s in _self_calls(cx, fk) if s[0] == k]:
+                for (f, mode, sp, where) in _trans_acqs(cx, c, memo):
+                    acqs.append((bi, f, mode, sp))
+            for (bi, f, mode, sp) in acqs:
+                for g, (fs, gmode) in guards.items():
+                    if f in fs:
+                        continue
+                    if M.held_at(b, g, bi):
+                        for a in fs:
+                            edges.setdefault((pre, a, f), []).append((fk, gmode, mode, sp))
+    n = len(edges)
+    bad = []
+    for (pre, a, f2), lst in edges.items():
+        back = edges.get((pre, f2, a))
+        if not back:
+            continue
+        # a write must be involved on each of the two locks somewhere in the cycle
+        w_a = any(x[1] == "write" for x in lst) or any(x[2] == "write" for x in back)
+        w_b = any(x[2] == "write" for x in lst) or any(x[1] == "write" for x in back)
+        if w_a and w_b and a < f2:
+            bad.append((pre, a, f2, lst[0], back[0]))
+    cx.floor("lock-order edges on the routing structures", n, 1)
+    if bad:
+        for (pre, a, f2, e1, e2) in bad:
+            cx.violation(e1[0], "lock-order-cycle:%s<->%s" % (a.lstrip("."), f2.lstrip(".")), "%s takes self%s (%s) and then self%s (%s at %s), while %s takes them in the opposite order (%s): a task in each "
+                         "waits for the other's lock and neither routing call returns" % (named_parent(e1[0]).rsplit("::", 1)[1], a, e1[1], f2, e1[2], e1[3], named_parent(e2[0]).rsplit("::", 1)[1], e2[3]), [e1[3], e2[3]])
+    else:
+        cx.passed("cluster", "one-lock-order", [], "%d held-while-acquiring edges: %s" % (n, sorted("%s->%s" % (a.lstrip("."), f2.lstrip(".")) for (_, a, f2) in edges)))
